@@ -6,6 +6,8 @@ from .. import common, loadcheck, absyn, progcmp
 
 def pyval(v):
     q = Fraction(*v["re"])
+    if v["k"] == "complex":
+        return complex(float(q), float(Fraction(*v["im"])))
     return int(q) if v["k"] == "int" else float(q)
 
 
@@ -44,13 +46,18 @@ def judge(case):
     whole = whole_params(case["s"])
     for k, inst in enumerate(case["inst"]):
         kw = kwargs_of(inst["env"], whole)
-        try:
-            p = tmpl(**kw)
-        except BaseException as e:      # noqa: BLE001
-            return "bad", dict(d, reason="instantiation with %s raised %s: %s" % (kw, type(e).__name__, str(e)[:150]))
-        why = progcmp.cmp_program(inst["prog"], p, sections=("ops", "vars", "params"), num_kind=False)
-        if why:
-            return "bad", dict(d, reason="instantiated with %s: %s" % (kw, why))
+        import numpy as np
+        # the same values as Python numbers / nested lists, and as NumPy scalars / arrays
+        kw_np = {a: (np.array(b) if isinstance(b, list) else (np.complex128(b) if isinstance(b, complex) else (np.float64(b) if isinstance(b, float) else np.int64(b))))
+                 for a, b in kw.items()}
+        for how, kwx in (("Python values", kw), ("NumPy values", kw_np)):
+            try:
+                p = tmpl(**kwx)
+            except BaseException as e:      # noqa: BLE001
+                return "bad", dict(d, reason="instantiation with %s %s raised %s: %s" % (how, kwx, type(e).__name__, str(e)[:150]))
+            why = progcmp.cmp_program(inst["prog"], p, sections=("ops", "vars", "params"), num_kind=False)
+            if why:
+                return "bad", dict(d, reason="instantiated with %s %s: %s" % (how, kwx, why))
         text_s = absyn.render(inst["subst"], random.Random(case["seed"] + 17 + k))
         rs = realrun.loads(text_s)
         if rs[0] == "raise":
